@@ -54,6 +54,14 @@ func (c Config) Options() *opt.Options {
 		o.WriteBuffer = 64
 		o.CompactionL0Trigger = 4
 		o.CompactionTableSize = 1 << 20
+	case "widebloom":
+		// tables of several blocks, each block with its own bloom filter partition
+		o = flushy()
+		o.WriteBuffer = 64
+		o.CompactionL0Trigger = 4
+		o.CompactionTableSize = 1 << 20
+		o.Filter = filter.NewBloomFilter(10)
+		o.FilterBaseLg = 4
 	case "mixed":
 		// several entries per buffer/table, outputs split into several tables, deep cascade
 		o = flushy()
